@@ -97,6 +97,22 @@ class Violation:
         self.label, self.detail = label, detail
 
 
+def exception_label(e):
+    """raised:<Type> when the exception was raised by code of the repository (or the stdlib
+    on its behalf); harness-exception:<Type> when the innermost frame is the machinery's own"""
+    import os
+
+    tb = e.__traceback__
+    last = None
+    while tb is not None:
+        last = tb.tb_frame.f_code.co_filename
+        tb = tb.tb_next
+    root = os.path.dirname(os.path.abspath(__file__))
+    if last and last.startswith(root) and not isinstance(e, AssertionError):
+        return "harness-exception:" + type(e).__name__
+    return "raised:" + type(e).__name__
+
+
 class Env:
     """what a harness sees.  mode == 'sym': inputs are proxies; mode == 'native': inputs come
     from a concrete assignment and the *untouched* modules are executed."""
@@ -321,7 +337,7 @@ def run_path(fn, params, prefix, regions, tier, deadline, qtimeout_ms):
             raise EngineLimit("recursion limit inside the harness")
         except Exception as e:
             # an exception escaping the harness is a property failure of kind raised:<type>
-            v = Violation("raised:" + type(e).__name__, traceback.format_exc(limit=-6))
+            v = Violation(exception_label(e), traceback.format_exc(limit=-6))
             v.model = ctx.get_model()
             env.failed.append(v)
         ctx.discharge_obligations()
@@ -407,7 +423,7 @@ def run_native(fn, params, inputs, regions=None, tier="quick"):
     except Cut:
         return {"failed": [], "obs": None, "excused": [], "aborted": True}
     except Exception as e:
-        env.failed.append(Violation("raised:" + type(e).__name__, traceback.format_exc(limit=-6)))
+        env.failed.append(Violation(exception_label(e), traceback.format_exc(limit=-6)))
     return {
         "failed": [[v.label, v.detail] for v in env.failed],
         "obs": [[l, concretize(v)] for l, v in env.obs],
